@@ -54,6 +54,10 @@ structure XExt where
 structure Store where
   files   : List DataFile
   verdict : Option Bool := none
+  /-- an interrupted reap plan on disk: how many of the chain's WAL files the interrupted run
+  had already checkpointed into the database (they no longer exist; the database's sidecar is
+  then stale by construction) -/
+  plan    : Option Nat := none
 deriving DecidableEq, Repr
 
 def fileScanOk (E : XExt) (f : DataFile) : Bool :=
@@ -122,6 +126,28 @@ def reap (E : XExt) (s : Store) : Store × ReapRes :=
         let out := E.replay db.content (wals.map (·.content))
         ({ s1 with files := [{ content := out, side := .crc (E.crc out), isDb := true, snap := db.snap }] }, .ok)
 
+/-! ### resuming an interrupted reap plan (`Store.check` at start, `reapInternal`)
+
+The plan's checkpoint operation consumes the chain's WAL files one by one; a crash leaves the
+plan file, the database (already containing the consumed WALs) and the remaining WALs. Since
+the `fix:` commit the resume first checks every remaining WAL against its sidecar, and the
+database too when nothing has been consumed yet; then it checkpoints the rest and records a
+fresh CRC. No `ensureVerified` runs on this path (the store is in a half-reaped state). -/
+
+def resumePlan (E : XExt) (s : Store) : Store × ReapRes :=
+  match s.plan with
+  | none => (s, .noop)
+  | some consumed =>
+    match chainFiles s with
+    | [] => ({ s with plan := none }, .noop)
+    | db :: wals =>
+      let inputs := if consumed = 0 then db :: wals else wals
+      if !inputs.all (fileCrcOk E) then (s, .err)
+      else
+        let out := E.replay db.content (wals.map (·.content))
+        ({ s with plan := none,
+                  files := [{ content := out, side := .crc (E.crc out), isDb := true, snap := db.snap }] }, .ok)
+
 /-! ### the consumers as programs
 
 `Open` and `reapInternal` written as the sequence of steps the Go functions execute, with an
@@ -186,6 +212,7 @@ def stepOfCall (c : String) : Option Step :=
 `new` → ok;  `file db|wal|olddb|oldwal <snapdir#> <contenthex> <side>` → ok   (side: `c<decimal>` | `d` | `b`)
 `setc <i> <hex>` / `sets <i> <side>` → ok | bad-op    (late or early corruption of file i)
 `ensure` → ok | err
+`plan <k>` → ok (an interrupted reap plan is on disk, k chain WALs already consumed);  `resume <replayhex>` → err | noop | ok
 `open` → `err` | `ok <size:crc,…> accept=<bool>`
 `reap <replayhex>` → err | noop | ok   (`replayhex`: what SQLite's checkpoint of the current
                                          files yields; used as the value of `replay`) -/
@@ -234,6 +261,16 @@ def step (d : DState) (line : String) : DState × String :=
       | some fs => ({ s := { d.s with files := fs } }, "ok")
       | none => (d, "bad-op")
     | _, _ => (d, "bad-op")
+  | ["plan", k] =>
+    match k.toNat? with
+    | some k => ({ s := { d.s with plan := some k } }, "ok")
+    | none => (d, "bad-op")
+  | ["resume", rep] =>
+    match tokBytes rep with
+    | some rep =>
+      let (s', r) := resumePlan (drvX rep) d.s
+      ({ s := s' }, match r with | .err => "err" | .noop => "noop" | .ok => "ok")
+    | none => (d, "bad-op")
   | ["ensure"] =>
     let (s', v) := ensureVerified (drvX []) d.s
     ({ s := s' }, if v then "ok" else "err")
